@@ -18,6 +18,19 @@ def native(fn):
     return fn
 
 
+class ZipMapV:
+    """dict(zip(keys, values)) over arrays of symbolic length, kept as the two positional sequences
+    (later duplicates of a key win, as in Python; no lookup is modelled - contracts inspect it positionally)"""
+
+    def __init__(self, keys, vals):
+        self.keys, self.vals = keys, vals
+
+    def val_at(self, k):
+        if isinstance(self.vals, RangeV):
+            return to_term(self.vals.start) + k * to_term(self.vals.step)
+        return self.vals.at(k)
+
+
 class TypeTag:
     """a builtin / library type used in isinstance() and as a constructor"""
 
@@ -196,9 +209,11 @@ def b_dict(I, x=None, **kw):
                 h = getattr(x, "pyvc_todict", None)
                 if h is not None:
                     return h(I)
+                if isinstance(x, ZipV) and len(x.parts) == 2 and isinstance(x.parts[0], Arr) \
+                        and isinstance(x.parts[1], (Arr, RangeV)):
+                    # dict(zip(keys, values)) with symbolic length: kept structurally (positional view)
+                    return ZipMapV(x.parts[0], x.parts[1])
                 if isinstance(x, ZipV) and len(x.parts) == 2:
-                    # dict(zip(keys, values)) with symbolic length -> SymMap
-                    ck, fk = I.sym_iter(x.parts[0]) if I.concrete_items(x.parts[0]) is None else (None, None)
                     raise Unsupported("dict(zip(...)) over symbolic iterables (use a contract)")
                 raise Unsupported("dict() of symbolic iterable")
             for k, v in items:
